@@ -14,7 +14,7 @@
 (* that is deleted with it) is physically purged only when some read walks *)
 (* over it; which reads do differs between state implementations.          *)
 (***************************************************************************)
-EXTENDS Match
+EXTENDS Query
 
 CONSTANTS
   Bang,    \* [key starting with "!" |-> the rest of the key]
@@ -22,6 +22,9 @@ CONSTANTS
   Durs,    \* [string |-> whole seconds]       (valid Go durations)
   Times,   \* [string |-> UNIX seconds]        (valid RFC3339 times)
   BadJs,   \* set of action/condition code strings that do not compile
+  Acts,    \* [action code |-> [kind, tag]]: kind "num" (value = the number tag), "ret" (returns
+           \*   {tag, b: its visible bindings}), "throw" (fails)
+  CondCodes, \* [condition code |-> kind of Query!CodeOn]
   MaxFacts \* capacity of every location
 
 -----------------------------------------------------------------------------
@@ -186,8 +189,10 @@ Last(s) == s[Len(s)]
 (*   found search / dispatch results: set of [id, bss, body]                *)
 (*   ids   set of ids (ListRules, SearchRules, GetParents)                  *)
 (*   n     StateSize                                                        *)
+(*   tree  ProcessEvent: per dispatched rule and when-binding, the condition *)
+(*         outcome and the bag of action executions                          *)
 
-R0 == [c |-> "ok", id |-> "", val |-> Null, found |-> {}, ids |-> {}, n |-> 0]
+R0 == [c |-> "ok", id |-> "", val |-> Null, found |-> {}, ids |-> {}, n |-> 0, tree |-> {}]
 Resp(c) == [R0 EXCEPT !.c = c]
 Out(mem, ro, r) == [mem |-> mem, ro |-> ro, resp |-> r]
 
@@ -395,8 +400,62 @@ OpSearchRules(mr, mw, ro, op) ==
      ELSE IF dupMay # {} THEN oks \cup {Out(mw, ro, Resp("error"))}
      ELSE oks
 
-\* ProcessEvent, as far as rule finding goes (FindRules): which rules are
-\* evaluated, each with which bindings.  Conditions and actions: Dispatch.tla.
+-----------------------------------------------------------------------------
+(* Dispatch: what ProcessEvent evaluates and executes.                      *)
+
+SetToSeq(S) == CHOOSE f \in [1..Cardinality(S) -> S] : \A i, j \in 1..Cardinality(S) : i # j => f[i] # f[j]
+
+\* a rule's condition (a JSON value) as a Query tree; arrays are sets in the
+\* value encoding, so the order of conjuncts/disjuncts is arbitrary here: the
+\* condition grammar of the generators keeps to queries whose result bag does
+\* not depend on it
+RECURSIVE CondTree(_)
+CondTree(v) ==
+  IF v.k # "m" \/ DOMAIN v.m = {} THEN [t |-> "empty"]
+  ELSE IF Has(v, "code") THEN [t |-> "code", kind |-> IF v.m["code"].a \in DOMAIN CondCodes THEN CondCodes[v.m["code"].a] ELSE "true"]
+  ELSE IF Has(v, "pattern") THEN [t |-> "pattern", p |-> v.m["pattern"]]
+  ELSE IF Has(v, "and") THEN [t |-> "and", qs |-> SetToSeq({CondTree(x) : x \in v.m["and"].l})]
+  ELSE IF Has(v, "or") THEN [t |-> "or", qs |-> SetToSeq({CondTree(x) : x \in v.m["or"].l}),
+                             sc |-> Has(v, "shortCircuit") /\ v.m["shortCircuit"] = BoolV(TRUE)]
+  ELSE IF Has(v, "not") THEN [t |-> "not", q |-> CondTree(v.m["not"])]
+  ELSE [t |-> "empty"]
+
+ActionsOf(rb) == IF Has(rb, "action") THEN {rb.m["action"]}
+                 ELSE IF Has(rb, "actions") /\ rb.m["actions"].k = "l" THEN rb.m["actions"].l ELSE {}
+ActionCode(a) == IF Has(a, "code") THEN a.m["code"].a ELSE ""
+
+\* facts a condition sees: the visible facts of the location and its ancestors
+VisibleFacts(mr, now, locs) ==
+  UNION {{[loc |-> a, id |-> i, body |-> mr[a][i].body] : i \in Vis(mr[a], now)} : a \in locs}
+
+Builtins(b, ev, l, id) ==
+  LET b1 == IF "?event" \in DOMAIN b THEN b ELSE Ext(b, "?event", ev)
+      b2 == IF "?location" \in DOMAIN b1 THEN b1 ELSE Ext(b1, "?location", Str(l))
+  IN IF "?ruleId" \in DOMAIN b2 THEN b2 ELSE Ext(b2, "?ruleId", Str(id))
+
+\* one node per (rule, when-binding): the condition's outcome and, when it
+\* succeeded, each action once per binding the condition produced
+RuleNodes(mr, now, l, locs, ev, id, rb, bss) ==
+  LET facts == VisibleFacts(mr, now, locs)
+      cond == IF Has(rb, "condition") THEN CondTree(rb.m["condition"]) ELSE [t |-> "empty"]
+      node(wb) ==
+        LET b0 == Builtins(wb, ev, l, id)
+            r == EvalTop(cond, Single(b0), facts)
+            codes == {ActionCode(a) : a \in ActionsOf(rb)}
+        IN [id |-> id, wb |-> b0, c |-> IF r.err THEN "err" ELSE "ok",
+            execs |-> IF r.err THEN EmptyBag
+                      ELSE [x \in {[b |-> b, code |-> cd] : b \in DOMAIN r.bag, cd \in codes} |-> r.bag[x.b]]]
+  IN {node(wb) : wb \in bss}
+
+\* value an action execution returns (Null when it fails)
+ExecValue(code, b) ==
+  IF code \notin DOMAIN Acts THEN Null
+  ELSE CASE Acts[code].kind = "num" -> NumA(Acts[code].tag)
+         [] Acts[code].kind = "ret" -> Obj(("tag" :> Str(Acts[code].tag)) @@ ("b" :> Obj(b)))
+         [] OTHER -> Null
+ExecFails(code) == code \in DOMAIN Acts /\ Acts[code].kind = "throw"
+
+\* ProcessEvent: rule finding (FindRules), then conditions and actions.
 OpProcessEvent(mr, mw, ro, op) ==
   LET l == op.loc  now == op.now
       vs == VisitSet(mr, now, l, TRUE)
@@ -406,7 +465,8 @@ OpProcessEvent(mr, mw, ro, op) ==
       hits == UNION {{[id |-> i, bss |-> Match(WhenPattern(RuleBody(mr[a][i])), op.val), body |-> RuleBody(mr[a][i])] :
                          i \in {j \in MatchingRules(mr[a], now, op.val) : ~RuleDisabled(mr[l], now, j)}} :
                      a \in vs.locs}
-      ok == Out(mw, ro, [R0 EXCEPT !.found = hits])
+      tree == UNION {RuleNodes(mr, now, l, vs.locs, op.val, h.id, h.body, h.bss) : h \in hits}
+      ok == Out(mw, ro, [R0 EXCEPT !.found = hits, !.tree = tree])
   IN IF vs.err THEN {Out(mw, ro, Resp("error"))}
      ELSE IF bad # {} THEN {Out(mw, ro, Resp("error"))}
      ELSE IF dupMust # {} THEN {Out(mw, ro, Resp("error"))}
